@@ -521,15 +521,11 @@ func (fc *funcContext) translateExpr(expr ast.Expr) *expression {
 				// Should never happen in type-checked code.
 				panic(fmt.Errorf("non-array pointers can't be used with index expression"))
 			}
-			// Rewrite arrPtr[i] → (*arrPtr)[i] to concentrate array dereferencing
-			// logic in one place.
-			x := &ast.StarExpr{
-				Star: e.X.Pos(),
-				X:    e.X,
-			}
-			astutil.SetType(fc.pkgCtx.Info.Info, t.Elem(), x)
-			e.X = x
-			return fc.translateExpr(e)
+			// arrPtr[i] is (*arrPtr)[i]: a pointer to an array is represented by
+			// the array itself, so only the nil check has to be added (the
+			// attribute getter of the nil pointer panics).
+			pattern := "(%1e.nilCheck, " + rangeCheck("%1e[%2f]", fc.pkgCtx.Types[e.Index].Value != nil, true) + ")"
+			return fc.formatExpr(pattern, e.X, e.Index)
 		case *types.Array:
 			pattern := rangeCheck("%1e[%2f]", fc.pkgCtx.Types[e.Index].Value != nil, true)
 			return fc.formatExpr(pattern, e.X, e.Index)
